@@ -269,6 +269,43 @@ func runC11(r *rt.Runner) {
 		}
 	}
 
+	// ---- (2c) just below the limit of the execution nesting: leaving a loop by exit,
+	// or the program by stop, from the bottom of a recursion needs no more levels
+	// than returning normally does (the limit is found by running, not pinned)
+	r.Case("near-the-nesting-limit", func(c *rt.C) {
+		prog := func(leaf string, n int, tail string) string {
+			return fmt.Sprintf("{ /r { dup 0 gt { 1 sub r } { pop %s } ifelse } def %d r %s } loop 7", leaf, n, tail)
+		}
+		deepest := func(leaf, tail string, ok func(intp *postscript.Interpreter, err error) bool) int {
+			best := 0
+			for n := 1; n <= 400; n++ {
+				intp, err, _ := runTraced(prog(leaf, n, tail), 200000, false)
+				c.Eval()
+				if !ok(intp, err) {
+					break
+				}
+				best = n
+			}
+			return best
+		}
+		plain := deepest("5 pop", "exit", func(intp *postscript.Interpreter, err error) bool { return err == nil && len(intp.Stack) == 1 })
+		byExit := deepest("exit", "9", func(intp *postscript.Interpreter, err error) bool { return err == nil && len(intp.Stack) == 1 })
+		byStop := deepest("stop", "9", func(intp *postscript.Interpreter, err error) bool { return err == nil && len(intp.Stack) == 0 })
+		c.Runner().Max("deepest recursion that returns normally", int64(plain))
+		c.Count("near-limit recursion probes")
+		c.SetDetail(func() string {
+			return fmt.Sprintf("deepest working recursion: returning normally %d, leaving by exit %d, by stop %d", plain, byExit, byStop)
+		})
+		if plain < 20 || plain >= 400 {
+			c.Inconclusive(fmt.Sprintf("recursion depth limit not found (%d)", plain))
+			return
+		}
+		if byExit < plain-1 || byStop < plain-1 {
+			c.Violation("near-limit|exit-or-stop", fmt.Sprintf("a recursion %d deep returns normally, but leaving the enclosing loop by exit works only to depth %d and ending the program by stop to depth %d\nprogram shape: %s", plain, byExit, byStop, prog("exit", plain, "9")), "")
+		}
+		c.Nontrivial([]byte("near-limit"), func() string { return fmt.Sprintf("plain %d exit %d stop %d", plain, byExit, byStop) })
+	})
+
 	// ---- (3) start check, all two-byte prefixes
 	tail := " /zz 42 def 7 8 9\n"
 	for hi := 0; hi < 256; hi++ {
@@ -361,6 +398,8 @@ var c11CutPinned = []string{
 	"errordict /undefined { pop 7 } put nosuchname nosuchname 8",
 	"errordict /stackoverflow { } put { 1 } loop",
 	"16777216 array",
+	// large requests that succeed: they are one operation each, whatever they allocate
+	"65535 string pop 1", "5000 array length 2", "3000 dict pop 3", "1024 string 1025 array 1023 dict 4", "65535 array pop 65535 string pop 5",
 	"currentfile eexec\n" + hexSection("{ 1 1 } loop "),
 	"currentfile eexec\n" + hexSection("/p { p 1 } def p "),
 	"/p { currentfile eexec } def p\n" + hexSection("/x 1 def { 1 } loop "),
